@@ -187,6 +187,11 @@ ada_really_inline uint64_t try_parse_ipv4_avx512(const char* data,
  */
 ada_really_inline uint64_t
 try_parse_ipv4_fast(std::string_view input) noexcept {
+#ifdef ADA_URL_ADA_VERIF
+  if (ada_verif_buggify(105)) {
+    return ipv4_fast_fail;  // decline: general IPv4 parser decides
+  }
+#endif
   const size_t len = input.size();
   // Shortest pure decimal: "0.0.0.0" (7). Longest + trailing dot: 16.
   if (len < 7 || len > 16) [[unlikely]] {
